@@ -2,6 +2,7 @@
 package hx
 
 import (
+	"encoding/json"
 	"errors"
 	"fmt"
 	"io"
@@ -10,6 +11,15 @@ import (
 
 	"github.com/jf-tech/omniparser"
 	"github.com/jf-tech/omniparser/errs"
+	"github.com/jf-tech/omniparser/extensions/omniv21/fileformat"
+	"github.com/jf-tech/omniparser/extensions/omniv21/fileformat/csv"
+	"github.com/jf-tech/omniparser/extensions/omniv21/fileformat/edi"
+	"github.com/jf-tech/omniparser/extensions/omniv21/fileformat/fixedlength"
+	csv2 "github.com/jf-tech/omniparser/extensions/omniv21/fileformat/flatfile/csv"
+	fixedlength2 "github.com/jf-tech/omniparser/extensions/omniv21/fileformat/flatfile/fixedlength"
+	jsonf "github.com/jf-tech/omniparser/extensions/omniv21/fileformat/json"
+	xmlf "github.com/jf-tech/omniparser/extensions/omniv21/fileformat/xml"
+	"github.com/jf-tech/omniparser/extensions/omniv21/transform"
 	"github.com/jf-tech/omniparser/idr"
 	"github.com/jf-tech/omniparser/transformctx"
 
@@ -328,4 +338,44 @@ func (c *CutReader) Read(p []byte) (int, error) {
 	copy(p, c.Data[c.pos:c.pos+n])
 	c.pos += n
 	return n, nil
+}
+
+// FormatReaderFactory validates a schema once (full NewSchema path for acceptance, then the
+// format's own ValidateSchema) and returns a factory of FormatReaders for inputs.
+func FormatReaderFactory(schemaText string) (func(input string) (fileformat.FormatReader, error), error) {
+	if _, err, _ := NewSchema("s", schemaText); err != nil {
+		return nil, err
+	}
+	content := []byte(schemaText)
+	var hdr struct {
+		PS struct {
+			Format string `json:"file_format_type"`
+		} `json:"parser_settings"`
+	}
+	if err := json.Unmarshal(content, &hdr); err != nil {
+		return nil, err
+	}
+	fo, err := transform.ValidateTransformDeclarations(content, nil, nil)
+	if err != nil {
+		return nil, err
+	}
+	formats := []fileformat.FileFormat{
+		csv.NewCSVFileFormat("s"), csv2.NewCSVFileFormat("s"), edi.NewEDIFileFormat("s"),
+		fixedlength.NewFixedLengthFileFormat("s"), fixedlength2.NewFixedLengthFileFormat("s"),
+		jsonf.NewJSONFileFormat("s"), xmlf.NewXMLFileFormat("s"),
+	}
+	for _, ff := range formats {
+		rt, err := ff.ValidateSchema(hdr.PS.Format, content, fo)
+		if err == errs.ErrSchemaNotSupported {
+			continue
+		}
+		if err != nil {
+			return nil, err
+		}
+		ff := ff
+		return func(input string) (fileformat.FormatReader, error) {
+			return ff.CreateFormatReader("in", strings.NewReader(input), rt)
+		}, nil
+	}
+	return nil, errs.ErrSchemaNotSupported
 }
